@@ -53,6 +53,8 @@ def run(ctx):
     ctx.do(rule_all_answers_filtered)
     ctx.do(rule_filters_only_grow)
     ctx.do(rule_scans_complete)
+    from . import C11 as _C11
+    ctx.do(_C11.rule_memory_query_scans_everything, rule_id="C12.scans-complete")
     from .pitfalls import rule_groupby_sorted, rule_single_use_iterators
     ctx.do(rule_groupby_sorted, "C12.iterator-pitfalls", ("stix2.datastore",))
     ctx.do(rule_single_use_iterators, "C12.iterator-pitfalls", ("stix2.datastore",))
@@ -110,6 +112,15 @@ def rule_operator_table(ctx):
     for n in body_walk(fi.node):
         if isinstance(n, ast.Assign) and isinstance(n.targets[0], ast.Name) and ("self.value" in norm(n.value)):
             fvals.add(n.targets[0].id)
+    # the table is the ONLY place that answers: no return of _check_property lies outside the operator chain (an early
+    # `return False` for "unlike kinds" makes `latitude > 40` miss every float latitude -- int and float are unlike types)
+    in_chain = {id(r) for body_ in list(table.values()) + [else_body] for s_ in body_ for r in ast.walk(s_) if isinstance(r, ast.Return)}
+    outside = [r for r in body_walk(fi.node) if isinstance(r, ast.Return) and id(r) not in in_chain]
+    run.check(not outside, R, key(rel, fi.qualname, "answers-only-from-the-table"),
+              "Filter._check_property answers before the operator table is consulted: the documented semantics of the operator (the "
+              "Python comparison of property and value) do not apply on that path -- objects that satisfy the filter are not "
+              "returned", file=rel, line=outside[0].lineno if outside else fi.node.lineno, function=fi.qualname,
+              expected="every return inside `if self.op == ...` branches", found=[short(r) + " under " + " & ".join(norm(t) for t, pol, _ in guard_chain(r)) for r in outside][:2])
     run.check(sorted(ops) == sorted(OPS), R, key(rel, "FILTER_OPS", "operators"), "the set of supported operators changed", file=rel,
               line=b.lineno, function="<module>", expected=sorted(OPS), found=sorted(ops))
     for op in sorted(set(ops) | set(OPS)):
